@@ -8,7 +8,17 @@ MC_Sources  == {"a", "sub/b", "sub/c"}
 MC_Modules  == {"sub/c", "lib/m"}
 MC_DirOf    == [f \in MC_Sources \cup MC_Modules |-> IF f \in {"sub/b", "sub/c"} THEN "sub" ELSE IF f = "lib/m" THEN "lib" ELSE "root"]
 MC_Dirs     == {"sub", "lib"}       \* `lib` holds a module only: a directory whose removal takes a DEPENDENCY of surviving sources away
-MC_Requires == [s \in MC_Sources \cup MC_Modules |-> IF s = "a" THEN {"lib/m"} ELSE IF s = "sub/b" THEN {"sub/c", "lib/m"} ELSE {}]
+\* a -> sub/c -> lib/m is a CHAIN (the bundler inlines transitively); sub/b requires both directly.  Version 2 of a file of
+\* MC_Droppers requires nothing (an edit can take a require away): the modules a source depends on are those REACHED through
+\* the requires of the current contents, stopping at files that are missing or do not parse.
+MC_Requires == [s \in MC_Sources \cup MC_Modules |-> IF s = "a" THEN {"sub/c"} ELSE IF s = "sub/b" THEN {"sub/c", "lib/m"} ELSE IF s = "sub/c" THEN {"lib/m"} ELSE {}]
+MC_Droppers == {"sub/c"}
+ReqOf(iv, f) == IF f \in MC_Droppers /\ iv[f] = 2 THEN {} ELSE MC_Requires[f]
+ReachOf(iv, s) ==
+  LET G(x) == iv[x] > 0 IN
+  LET r1 == ReqOf(iv, s) IN
+  LET r2 == r1 \cup UNION {ReqOf(iv, m) : m \in {x \in r1 : G(x)}} IN
+  r2 \cup UNION {ReqOf(iv, m) : m \in {x \in r2 : G(x)}}
 \* c2+skip = c2 whose remove_empty_do rule carries skip_files: ['**/a.lua'];  c2+read = c2 with the readable generator
 MC_Configs  == IF Flag0("MORECONFIGS") THEN {"c1", "c2", "c2+skip", "c2+read"} ELSE {"c1", "c2"}
 \* the configuration hash: DevSerLosesFilters = the serialised configuration drops rule filters (F-C19-a, fixed)
